@@ -33,7 +33,9 @@ def extra_builds(tier):
 
 def bounds(tier):
     return {"field_depth": 3 if tier == "thorough" else 2, "leaves": len(leaves()), "single_nibble_scalars": 63 * 15 + 7,
-            "dsm_scalars": len(dsm_scalars()), "points": 14}
+            "dsm_scalars": len(dsm_scalars()), "points": 14,
+            "limb_field_elements": {"radix51": len(limb_elements(51, tier)), "radix25.5": len(limb_elements(25, tier))}, "steering_targets": "every limb-field element as the result of mul / sq / sq2 / mul_small / add / sub",
+            "lazy_sums": len(lazy_sum_cases()), "scalar_limb_elements": {"radix56": 243, "radix21": 4096}, "digit_scalars": len(digit_scalars())}
 
 
 def validate_models(tier):
